@@ -571,7 +571,7 @@ def run(ck: common.Check):
         "pairs of up to 6 live procedures x ALL 32 subsets K (check_eqv_proc) and get_strictest_eqv_proc are "
         "compared between extracted Coq model, real module and BFS closure.  api stream: real @proc "
         "procedures scheduled with bind_config/write_config/delete_config/call_eqv/rename/simplify, "
-        "unsafe_assert_eq, is_eq, partial_eval/add_assertion, drops; calls into proc_eqv observed by "
+        "unsafe_assert_eq, is_eq, partial_eval/add_assertion/transpose (new origins), drops; calls into proc_eqv observed by "
         "wrapping.  search: every history up to the stated length (procedures named in order of "
         "declaration) checked against the closure.  A case is one call sequence, distinct by its compact "
         "text, non-trivial when it records >= 2 steps (>= 3 for api) and at least one non-empty mod-set.")
